@@ -414,6 +414,12 @@ static ASMJIT_FAVOR_SIZE Error validate(InstDB::Mode mode, const BaseInst& inst,
             op_flags |= InstDB::OpFlags::kVm32z | InstDB::OpFlags::kVm64z;
           }
           else {
+            // GP base and GP index registers must have the same size - there is only one address-size per instruction.
+            bool base_is_gp = base_type == RegType::kGp16 || base_type == RegType::kGp32 || base_type == RegType::kGp64;
+            if (ASMJIT_UNLIKELY(base_is_gp && base_type != index_type && !m.is_reg_home())) {
+              return make_error(Error::kInvalidAddress);
+            }
+
             if (base_type != RegType::kNone)
               op_flags |= InstDB::OpFlags::kFlagMib;
           }
